@@ -9,7 +9,8 @@
    script followed by the destructors of all container variables. *)
 From Coq Require Import List NArith Arith Bool.
 From FV Require Import Common.EventLog Seq.SlotModel Seq.VectorModel Seq.VectorProofs Seq.VectorLog
-  Seq.StackModel Seq.ListModel Seq.DynArrayModel Seq.DynStackListProofs Seq.StackListLog Seq.DynArrayLog.
+  Seq.StackModel Seq.ListModel Seq.DynArrayModel Seq.DynStackListProofs Seq.StackListLog Seq.DynArrayLog
+  Seq.SmallVectorModel Seq.SmallVectorProofs Seq.SmallVectorLog.
 Import ListNotations.
 
 Theorem C16_vector_log_wf : forall esz ops, ref_ok rs0 ops -> Forall regs_ok ops ->
@@ -26,6 +27,27 @@ Example C16_vector_d08_log_rejected :
   wf_log [EAlloc 1 48; EConstruct (1, 0); EConstruct (1, 1); EAlloc 2 144; EUse (1, 0); EConstruct (2, 0); EUse (1, 1); EConstruct (2, 1);
           EDestroy (1, 0); EDestroy (1, 1); EFree 1; EConstruct (2, 2);
           EAlloc 3 336; EUse (2, 0); EConstruct (3, 0); EUse (2, 1); EConstruct (3, 1); EUse (2, 2); EConstruct (3, 2); EUse (2, 3)] = false.
+Proof. reflexivity. Qed.
+
+(* small_vector N, on both sides of the inline/heap boundary; [None] = FRG_ASSERT stopped the script
+   (pop_back/front/back of an empty vector).  After the D16 fix swap/move construction relocate the inline
+   elements one by one, so the log of scripts that swap or move vectors with inline elements is well-formed. *)
+Theorem C16_small_vector_log_wf : forall esz NI ops, sref_ok rs0 ops -> Forall sregs_ok ops ->
+  match sref_run rs0 ops with
+  | Some (_, outs) =>
+    exists st e fin, srun esz NI (sst0 NI) ops = Ok (st, outs, e) /\ sfinish esz NI st = Ok fin /\ wf_closed (e ++ fin) = true
+  | None => srun esz NI (sst0 NI) ops = AssertStop
+  end.
+Proof. exact small_vector_log_wf. Qed.
+Print Assumptions C16_small_vector_log_wf.
+Example C16_small_vector_log_wf_ex :
+  let ops := [SPush 0 1%N; SPushMove 0 2%N; SPush 1 7%N; SSwap 0 1; SEmplace 0 8%N; SEmplace 0 9%N; SEmplace 0 10%N; SEmplace 0 11%N;
+              SSwap 0 1; SMoveCtor 2 1; SCopyCtor 1 2; SResize 1 2 0%N; SPop 1; SResize 0 9 5%N; SSwap 2 0] in
+  sref_ok rs0 ops /\ Forall sregs_ok ops /\
+  exists st outs e fin, srun 24%N 4 (sst0 4) ops = Ok (st, outs, e) /\ sfinish 24%N 4 st = Ok fin /\ wf_closed (e ++ fin) = true.
+Proof. vm_compute. split; [repeat split; repeat constructor|]. split; [repeat constructor|]. do 4 eexists. repeat split. Qed.
+(* D16 as it was (bytewise swap of the inline storage): a construct at 0.0 followed by a destroy at 0.4 is rejected *)
+Example C16_small_vector_d16_log_rejected : wf_log [EConstruct (0, 0); EDestroy (0, 4)] = false.
 Proof. reflexivity. Qed.
 
 Theorem C16_stack_log_wf : forall esz ops, kref_ok [] ops ->
